@@ -12,6 +12,8 @@
 //!        | {"op":"handle","mod","sym","send":bool}          `get_owned(sym)`: read it (call it if it is a function), then
 //!                                                           drop the handle here or on another thread (which re-reads first)
 //!        | {"op":"globals","kind":"standard"|"extended"|"harness","adopt":bool}   build a Globals, observe its names
+//! `"recheck":true` (with `seq_first`): the workloads are run alone a second time after the concurrent phase and must
+//! reproduce the first sequential transcripts (`rediff`).  `"kind":"churn"` rounds: see `run_churn`.
 //! (`"inject":"double-drop"` is a self-test knob: every worker drops its clone of the first library once too often.)
 //! result = {"id","threads","ops","equal":bool,"diff":{..}|null,"xdrops":n,"xfail":[..],"events":[..],"panic"?}
 //!
@@ -631,6 +633,26 @@ fn run_round(case: &J) -> J {
             Err(e) => return json!({"id": case["id"], "panic": e, "phase": "sequential"}),
         }
     }
+    // `recheck`: the same workloads alone once more AFTER the concurrent phase; their transcripts must equal those of the
+    // sequential run taken BEFORE it (per-thread / process-wide state that stays corrupted after the threads are gone)
+    let mut rediff = J::Null;
+    if case["recheck"].as_bool().unwrap_or(false) && seq_first {
+        match run_seq(&libs, &globals) {
+            Ok(again) => {
+                'outer: for (i, (a, b)) in again.iter().zip(seq_out.as_ref().unwrap().iter()).enumerate() {
+                    for (k, (x, y)) in a.transcripts.iter().zip(b.transcripts.iter()).enumerate() {
+                        if x != y {
+                            let j = x.iter().zip(y.iter()).position(|(p, q)| p != q).unwrap_or(x.len().min(y.len()));
+                            rediff = json!({"thread": i, "op": k, "item": j,
+                                            "after": x.get(j).map(|s| trunc(s)), "before": y.get(j).map(|s| trunc(s))});
+                            break 'outer;
+                        }
+                    }
+                }
+            }
+            Err(e) => return json!({"id": case["id"], "panic": e, "phase": "sequential-after"}),
+        }
+    }
     for (_, h) in libs.iter().rev() {
         events.push((tick(), format!("D 0 {} {}", h.id.0, h.id.1)));
     }
@@ -680,7 +702,326 @@ fn run_round(case: &J) -> J {
     };
     json!({"id": case["id"], "threads": n, "ops": nops, "items": items, "equal": diff.is_null(), "diff": diff,
            "xdrops": xdrops, "xfail": xfail, "events": evs, "op_errors": errs, "ms": t_start.elapsed().as_millis() as u64,
-           "dump": dump})
+           "rediff": rediff, "dump": dump})
+}
+
+// ---------------------------------------------------------------------------------------------------------------
+// churn rounds: producers build thousands of TINY frozen heaps / frozen modules back to back (consecutive heaps of
+// one thread are carved out of the same reference-counted chunk: the unused tail of a chunk stays in the per-thread
+// chunk cache, `Chunk::clone` = fetch_add), consumers on other threads read the value, compare it with the
+// expected encoding and drop the heap there (`Chunk::drop` = fetch_sub).  This is the protocol of `C20_rc_inv`
+// (count = holders) at a high rate: a lost increment/decrement frees a chunk under a live heap.
+//
+// round  = {"id","kind":"churn","seed","producers":P,"consumers":C,"iters":N,"max_ms":ms,"shapes":[..],
+//           "big_first":bytes,"chan_cap":k,"hold":h,"ev_n":e,"route":"rr"|"rand"|"block"}
+// result = {"id","kind":"churn","ops":heaps built,"items":values checked,"equal":bool,"nbad":n,"bad":[..],
+//           "xdrops":n,"events":[..],"seq_checked":n,"ms":..}
+
+fn mix64(mut z: u64) -> u64 {
+    z = z.wrapping_add(0x9E3779B97F4A7C15);
+    z = (z ^ (z >> 30)).wrapping_mul(0xBF58476D1CE4E5B9);
+    z = (z ^ (z >> 27)).wrapping_mul(0x94D049BB133111EB);
+    z ^ (z >> 31)
+}
+
+fn churn_text(pid: usize, i: usize) -> String {
+    format!("p{}-{:08}-{}", pid, i, "x".repeat(i % 23))
+}
+
+/// The specification of a churn round: which shape producer `pid` builds as its `i`-th heap and the encoding
+/// (`sv_harness::enc`) every reader must see.  Pure string formatting, independent of the library.
+fn churn_expected(seed: u64, pid: usize, i: usize, shapes: &[String]) -> (String, String) {
+    let k = mix64(seed ^ ((pid as u64) << 40) ^ i as u64) as usize % shapes.len().max(1);
+    let shape = shapes.get(k).cloned().unwrap_or_else(|| "str".to_owned());
+    let s = churn_text(pid, i);
+    let js = serde_json::to_string(&s).unwrap();
+    let e = match shape.as_str() {
+        "tuple" | "module" | "owned" => format!("(i{},{})", i, js),
+        "list" => {
+            let items: Vec<String> = (0..i % 7).map(|j| format!("i{}", i + j)).collect();
+            format!("[{}]", items.join(","))
+        }
+        "big" => format!("i{}", (1i64 << 40) + i as i64),
+        "nested" => format!("({},[i{},i7])", js, i),
+        "strs" => {
+            let items: Vec<String> =
+                (0..8 + i % 40).map(|j| serde_json::to_string(&format!("{}/{}", s, j)).unwrap()).collect();
+            format!("[{}]", items.join(","))
+        }
+        "eval" => format!("[i{},{},{{\"k\":(i{},)}}]", i, js, pid),
+        _ => js,
+    };
+    (shape, e)
+}
+
+enum Parcel {
+    Heap { heap: starlark::values::FrozenHeapRef, v: starlark::values::FrozenValue },
+    Module { fm: FrozenModule },
+    Owned { h: Handle },
+}
+
+struct Sent {
+    pid: usize,
+    i: usize,
+    rec: bool,
+    parcel: Parcel,
+}
+
+fn churn_build(pid: usize, i: usize, shape: &str, globals: &Globals) -> Result<Parcel, String> {
+    use starlark::values::FrozenHeap;
+    let s = churn_text(pid, i);
+    let mk_mod = || -> Result<FrozenModule, String> {
+        Module::with_temp_heap(|m| {
+            m.set("v", m.heap().alloc((i as i32, s.as_str())));
+            m.freeze().map_err(|e| format!("{:?}", e))
+        })
+    };
+    match shape {
+        "module" => Ok(Parcel::Module { fm: mk_mod()? }),
+        "owned" => {
+            let fm = mk_mod()?;
+            let h = fm.get_owned("v").map_err(|e| format!("{:#}", e))?;
+            drop(fm);
+            Ok(Parcel::Owned { h })
+        }
+        "eval" => {
+            let src = format!("v = [{}, {}, {{\"k\": ({},)}}]\n", i, serde_json::to_string(&s).unwrap(), pid);
+            let fm: Result<FrozenModule, String> = Module::with_temp_heap(|m| {
+                let ast = AstModule::parse("tiny.star", src, &dialect()).map_err(|e| format!("{}", e))?;
+                {
+                    let mut eval = Evaluator::new(&m);
+                    eval.eval_module(ast, globals).map_err(|e| format!("{}", e))?;
+                }
+                m.freeze().map_err(|e| format!("{:?}", e))
+            });
+            Ok(Parcel::Module { fm: fm? })
+        }
+        _ => {
+            let heap = FrozenHeap::new();
+            let v = match shape {
+                "tuple" => heap.alloc((i as i32, s.as_str())),
+                "list" => heap.alloc((0..i % 7).map(|j| (i + j) as i32).collect::<Vec<i32>>()),
+                "big" => heap.alloc((1i64 << 40) + i as i64),
+                "nested" => heap.alloc((s.as_str(), vec![i as i32, 7])),
+                "strs" => heap.alloc((0..8 + i % 40).map(|j| format!("{}/{}", s, j)).collect::<Vec<String>>()),
+                _ => heap.alloc(s.as_str()),
+            };
+            Ok(Parcel::Heap { heap: heap.into_ref(), v })
+        }
+    }
+}
+
+fn churn_read(p: &Parcel) -> String {
+    match p {
+        Parcel::Heap { v, .. } => enc(v.to_value()),
+        Parcel::Module { fm } => match fm.get_owned("v") {
+            Ok(h) => h.by_ref(|v| enc(*v)),
+            Err(e) => format!("get-ERR:{}", first_line(&format!("{:#}", e))),
+        },
+        Parcel::Owned { h } => h.by_ref(|v| enc(*v)),
+    }
+}
+
+struct ChurnOut {
+    built: usize,
+    checked: usize,
+    nbad: usize,
+    bad: Vec<String>,
+    events: Vec<(u64, String)>,
+}
+
+fn run_churn(case: &J) -> J {
+    use std::collections::VecDeque;
+    use std::sync::mpsc::SyncSender;
+    use std::sync::mpsc::sync_channel;
+    let t_start = Instant::now();
+    let seed = case["seed"].as_u64().unwrap_or(1);
+    let np = (case["producers"].as_u64().unwrap_or(1) as usize).max(1);
+    let nc = (case["consumers"].as_u64().unwrap_or(3) as usize).max(1);
+    let iters = case["iters"].as_u64().unwrap_or(10000) as usize;
+    let max_ms = case["max_ms"].as_u64().unwrap_or(10000);
+    let big_first = case["big_first"].as_u64().unwrap_or(0) as usize;
+    let cap = (case["chan_cap"].as_u64().unwrap_or(2) as usize).max(1);
+    let hold = case["hold"].as_u64().unwrap_or(0) as usize;
+    let ev_n = case["ev_n"].as_u64().unwrap_or(0) as usize;
+    let route = case["route"].as_str().unwrap_or("rr").to_owned();
+    let stack = (case["stack_mb"].as_u64().unwrap_or(16) as usize) << 20;
+    let shapes: Arc<Vec<String>> = Arc::new(
+        case["shapes"].as_array().map(|a| a.iter().filter_map(|x| x.as_str().map(|s| s.to_owned())).collect()).unwrap_or_default(),
+    );
+    let globals = sv_harness::globals();
+
+    // the same workload on one thread: build, read, drop (the reference behaviour)
+    let mut seq_checked = 0usize;
+    let mut seq_bad: Vec<String> = Vec::new();
+    for i in 0..iters.min(1500) {
+        let (shape, want) = churn_expected(seed, 1, i, &shapes);
+        match churn_build(1, i, &shape, &globals) {
+            Ok(p) => {
+                let got = churn_read(&p);
+                seq_checked += 1;
+                if got != want && seq_bad.len() < 3 {
+                    seq_bad.push(format!("{} #{}: reads {} expected {}", shape, i, trunc(&got), trunc(&want)));
+                }
+            }
+            Err(e) => return json!({"id": case["id"], "kind": "churn", "setup_error": format!("{} #{}: {}", shape, i, e)}),
+        }
+    }
+    if !seq_bad.is_empty() {
+        return json!({"id": case["id"], "kind": "churn", "seq_bad": seq_bad, "equal": false, "nbad": 0, "bad": []});
+    }
+
+    let barrier = Arc::new(Barrier::new(np + nc));
+    let mut txs: Vec<SyncSender<Sent>> = Vec::new();
+    let mut consumers = Vec::new();
+    for c in 0..nc {
+        let (tx, rx) = sync_channel::<Sent>(cap);
+        txs.push(tx);
+        let (b, shapes) = (barrier.clone(), shapes.clone());
+        let tid = np + 1 + c;
+        let h = std::thread::Builder::new().stack_size(stack).spawn(move || {
+            let mut out = ChurnOut { built: 0, checked: 0, nbad: 0, bad: Vec::new(), events: Vec::new() };
+            let mut rng = Rng(mix64(seed ^ (tid as u64) << 20) | 1);
+            let mut ring: VecDeque<Sent> = VecDeque::new();
+            b.wait();
+            for sent in rx.iter() {
+                if sent.rec {
+                    out.events.push((tick(), format!("Rv {} {} {}", tid, sent.pid, sent.i)));
+                }
+                let (_, want) = churn_expected(seed, sent.pid, sent.i, &shapes);
+                let got = churn_read(&sent.parcel);
+                if sent.rec {
+                    out.events.push((tick(), format!("Rd {} {} {}", tid, sent.pid, sent.i)));
+                }
+                out.checked += 1;
+                if got != want {
+                    out.nbad += 1;
+                    if out.bad.len() < 3 {
+                        out.bad.push(format!(
+                            "heap #{} of producer {} read on thread {}: {} expected {}",
+                            sent.i, sent.pid, tid, trunc(&got), trunc(&want)
+                        ));
+                    }
+                }
+                ring.push_back(sent);
+                // drop here, on another thread than the one that built the heap: immediately, or in bursts
+                let keep = if hold == 0 { 0 } else { rng.below(hold as u64 + 1) as usize };
+                while ring.len() > keep {
+                    let s = ring.pop_front().unwrap();
+                    if s.rec {
+                        out.events.push((tick(), format!("D {} {} {}", tid, s.pid, s.i)));
+                    }
+                    drop(s);
+                }
+            }
+            while let Some(s) = ring.pop_front() {
+                if s.rec {
+                    out.events.push((tick(), format!("D {} {} {}", tid, s.pid, s.i)));
+                }
+                drop(s);
+            }
+            out
+        });
+        match h {
+            Ok(h) => consumers.push(h),
+            Err(e) => return json!({"id": case["id"], "kind": "churn", "setup_error": format!("spawn: {}", e)}),
+        }
+    }
+    let mut producers = Vec::new();
+    for p in 0..np {
+        let pid = p + 1;
+        let (b, shapes, txs, g, route) = (barrier.clone(), shapes.clone(), txs.clone(), globals.dupe(), route.clone());
+        let h = std::thread::Builder::new().stack_size(stack).spawn(move || {
+            use starlark::values::FrozenHeap;
+            let mut out = ChurnOut { built: 0, checked: 0, nbad: 0, bad: Vec::new(), events: Vec::new() };
+            let mut rng = Rng(mix64(seed ^ (pid as u64) << 8) | 1);
+            b.wait();
+            let t0 = Instant::now();
+            // optionally a big first heap: the remainder of its (big) chunk goes to this thread's chunk cache and the
+            // later tiny heaps are all carved out of it
+            let big = if big_first > 0 {
+                let heap = FrozenHeap::new();
+                let v = heap.alloc("y".repeat(big_first).as_str());
+                Some((heap.into_ref(), v))
+            } else {
+                None
+            };
+            for i in 0..iters {
+                if i % 256 == 0 && t0.elapsed() > Duration::from_millis(max_ms) {
+                    break;
+                }
+                let (shape, _) = churn_expected(seed, pid, i, &shapes);
+                let parcel = match churn_build(pid, i, &shape, &g) {
+                    Ok(p) => p,
+                    Err(e) => {
+                        out.nbad += 1;
+                        out.bad.push(format!("producer {} could not build {} #{}: {}", pid, shape, i, e));
+                        break;
+                    }
+                };
+                out.built += 1;
+                let rec = i < ev_n;
+                if rec {
+                    out.events.push((tick(), format!("A {} 1", pid)));
+                    out.events.push((tick(), format!("Sd {} {} {}", pid, pid, i)));
+                }
+                let k = match route.as_str() {
+                    "rand" => rng.below(txs.len() as u64) as usize,
+                    "block" => (i / 64) % txs.len(),
+                    _ => i % txs.len(),
+                };
+                if txs[k].send(Sent { pid, i, rec, parcel }).is_err() {
+                    out.nbad += 1;
+                    out.bad.push(format!("consumer {} is gone (it died while reading/dropping heaps)", k));
+                    break;
+                }
+            }
+            if let Some((heap, v)) = big {
+                let n = v.to_value().unpack_str().map(|s| s.len());
+                if n != Some(big_first) {
+                    out.nbad += 1;
+                    out.bad.push(format!("the big first heap of producer {} reads length {:?}, expected {}", pid, n, big_first));
+                }
+                drop(heap);
+            }
+            out
+        });
+        match h {
+            Ok(h) => producers.push(h),
+            Err(e) => return json!({"id": case["id"], "kind": "churn", "setup_error": format!("spawn: {}", e)}),
+        }
+    }
+    drop(txs);
+    let mut built = 0usize;
+    let mut checked = 0usize;
+    let mut nbad = 0usize;
+    let mut bad: Vec<String> = Vec::new();
+    let mut events: Vec<(u64, String)> = Vec::new();
+    let mut panics = Vec::new();
+    for (i, h) in producers.into_iter().chain(consumers).enumerate() {
+        match h.join() {
+            Ok(o) => {
+                built += o.built;
+                checked += o.checked;
+                nbad += o.nbad;
+                bad.extend(o.bad);
+                events.extend(o.events);
+            }
+            Err(e) => panics.push(format!("thread {}: {}", i + 1, panic_msg(&*e))),
+        }
+    }
+    if !panics.is_empty() {
+        return json!({"id": case["id"], "kind": "churn", "panic": panics.join(" | "), "phase": "churn", "threads": np + nc});
+    }
+    if checked != built {
+        nbad += 1;
+        bad.push(format!("{} heaps built, {} received", built, checked));
+    }
+    events.sort();
+    let evs: Vec<&str> = events.iter().map(|(_, s)| s.as_str()).collect();
+    bad.truncate(6);
+    json!({"id": case["id"], "kind": "churn", "threads": np + nc, "ops": built, "items": checked, "equal": nbad == 0, "nbad": nbad,
+           "bad": bad, "xdrops": checked, "events": evs, "seq_checked": seq_checked, "ms": t_start.elapsed().as_millis() as u64})
 }
 
 /// CPU time (user + system, in clock ticks) consumed by this process so far.
@@ -737,7 +1078,8 @@ fn main() {
             let (r, limit) = (round_no.clone(), case["limit_s"].as_u64().unwrap_or(60));
             std::thread::spawn(move || watchdog(limit, r, my_round));
         }
-        let r = match catch_unwind(AssertUnwindSafe(|| run_round(&case))) {
+        let churn = case["kind"].as_str() == Some("churn");
+        let r = match catch_unwind(AssertUnwindSafe(|| if churn { run_churn(&case) } else { run_round(&case) })) {
             Ok(v) => v,
             Err(e) => json!({"id": case["id"], "panic": panic_msg(&*e), "phase": "main"}),
         };
